@@ -36,6 +36,30 @@ CHECKS = {
    "SoyRawText.tla states the line-joining rule declaratively (A) and models the seven-flag normaliser as a per-character machine (B); TLC checks (B) = (A) and the rule's own invariants for every string up to a length bound over {a < > space tab CR LF e-acute} in every neighbour context and that 9 named deviations are caught; the same strings are rendered by the real code between every kind of neighbouring tag/comment and compared with (A) (weak obligations next to comments, where the repository's tests pin trimming); random longer strings are validated by TLC (SoyRawTextTrace)",
    "next to a comment only the obligations every reading supports are demanded; multi-byte runes are represented by ASCII stand-ins inside TLC",
    "declarative rule vs implementation-shaped machine equivalence model check; exhaustive short strings replayed on the real lexer/parser/renderer; TLC trace validation", "§5 C15"),
+ "C03": ("model_checking",
+   "SoyEscape.tla / SoyDirectives.tla / C03Sites.tla: the HTML escaper as a per-character transducer with its decoder, every built-in directive with its contract, the CancelsAutoescape table and the effective-mode function; TLC checks the contracts exhaustively on short strings over an adversarial alphabet and that the named deviations are caught (C03Model), exports the (site x autoescape attributes x directive chain) table, and validates sampled recorded renders (C03Trace); the real renderer is run on every print site kind x attribute combination x chain x adversarial values and judged by an oracle independent of the expected text: no raw special where escaping is on, and the output HTML-decodes to the value",
+   "decoders are harness code specified by the spec's contracts; characters outside the model's KnownChars set are not judged",
+   "TLA+ transducer/contract model checked by TLC + TLC-exported site/mode/chain table replayed on the real renderer + TLC trace validation", "§5 C03"),
+ "C08": ("model_checking",
+   "SoyBundle.tla: all histories of renders (3 templates x 3 data sets, one failing), JS generation and EvalExpr over one compiled bundle under 4 registry configurations; TLC checks Pure and HistoryIndependent, that the deviations obligatory_append / render_mutates_data break them, that SoyExec refines the functional run (SoyBundleRefine), and exports every history; each history is replayed on the real code with outputs compared step by step and a deep reflective digest of the registry, AST, extension registries and caller data compared before/after each step; random long histories are validated by TLC (SoyBundleTrace)",
+   "package-level state outside the digest roots is visible only through outputs",
+   "TLA+ history model checked by TLC + exhaustive TLC-exported histories replayed on the real code with structural digests", "§5 C08"),
+ "C09": ("exploration",
+   "SoyConcurrent.tla: two (three) per-render interpreter states over one shared registry, every interleaving of node steps explored by TLC (NonInterference; deviations obligatory_append / memo_cache break it); TLC-exported schedules are FORCED on the real code through the blocking VerifAt hook in a -race build and each goroutine's bytes compared with the sequential bytes; free-running stress (16 goroutines x 200 renders, concurrent soyjs.Write, concurrent compilation) under the race detector in a child process whose race log is parsed",
+   "data-race freedom is observed by the Go race detector (compiler instrumentation), the specification supplies interleavings and expected bytes; free-running stress is schedule dependent",
+   "TLA+ interleaving model checked by TLC; TLC schedules forced on the real code via a blocking hook, under the Go race detector", "§5 C09"),
+ "C13": ("exploration",
+   "SoyBundleDet.tla models compilation in insertion order, message naming and JS generation with the import block; TLC checks Deterministic and OrderInsensitive for the reference and exhibits two distinct outputs for the deviations imports_in_map_order / phnames_in_map_order / order_leaks; on the real code bundle shapes built to maximise internal map use are compiled and emitted 40 times in-process and in 3 fresh processes, under every file insertion order (<= 4 files), for ES5/ES6 formatters, with/without a message bundle, and all observables (accept/reject, error text, ids, names, rendered bytes, JS bytes) must agree",
+   "agreement between runs is the oracle (no expected text); multi-error bundles may report any of their independent errors",
+   "TLA+ determinism model checked by TLC + repeated/permuted compilation and emission of generated bundles across processes", "§5 C13"),
+ "C14": ("translation_validation",
+   "SoyJsLit.tla: the JS string escaper as a transducer and JsDenote; TLC checks JsDenote(JsStringEscape(s)) = s and safety on all short strings over an adversarial alphabet and that 4 deviations are caught; every literal position x adversarial string inside every command kind is compiled, translated by the JS generator for both formatters, and the translation validated by node: it parses (scripts and ES modules), defines one function per template under its qualified name, and calling it returns exactly the characters the Soy literal denotes; sampled emitted literals are validated by TLC (SoyJsLitTrace)",
+   "node v20 is the JavaScript engine; the quoting of generated literals into Soy source is harness code",
+   "TLA+ escaper/denotation model checked by TLC + translation validation of generated JavaScript by executing it", "§5 C14"),
+ "C20": ("model_checking",
+   "SoyData.tla: abstract Go values (all integer/float kinds, typed nils, interfaces, time, slices, maps, structs with embedded/unexported fields, marshalers) and Convert to the Soy value model, with the value laws (idempotence, equality symmetric and numeric across int/float, truthiness table incl. NaN, text a function); TLC checks the laws on all values of depth <= 2 and all pairs, that 5 deviations are caught, and exports descriptors with expected values; the harness constructs the real Go values (reflect.StructOf for generated shapes), runs data.New/NewWith under both option settings and compares, pushes all pairs through Equals/Truthy/String; random nested values are validated by TLC (SoyDataTrace)",
+   "descriptor -> real Go value construction is harness code; kinds outside 'JSON-like' (chan, func, complex, non-string-keyed maps, uint64 >= 2^63) are recorded, not judged",
+   "TLA+ conversion/value-law model checked by TLC + TLC-exported descriptors replayed on the real converter + TLC trace validation", "§5 C20"),
 }
 
 NOT_YET = {
